@@ -91,7 +91,7 @@ class IllFormed(Exception):
     """the history violates a precondition of the lifecycle model (not a verdict)"""
 
 
-SETUP_OPS = {"hex", "chop", "patch", "zone", "project_side", "geometry"}
+SETUP_OPS = {"hex", "chop", "patch", "zone", "project_side", "geometry", "shape", "shape_chop", "shape_patch"}
 
 
 class Model:
@@ -105,6 +105,8 @@ class Model:
         self.pos: Dict[str, List[List[float]]] = {}
         self.added: List[str] = []
         self.deleted: List[str] = []
+        self.shapes: Dict[str, Dict[str, Any]] = {}  # multi-operation entities: construction ops, number of operations
+        self.deleted_sub: List[Tuple[str, int]] = []
         self.merges: List[List[str]] = []
         self.default: Optional[Dict[str, str]] = None
         self.patch_mods: Dict[str, Dict[str, Any]] = {}
@@ -127,14 +129,30 @@ class Model:
         return self.assembled and self.stale_reasons <= {"delete"}
 
     def live_ops(self) -> List[str]:
-        return [n for n in self.added if n not in self.deleted]
+        """plain operations that are added and not deleted"""
+        return [n for n in self.added if n not in self.deleted and n in self.recipes]
+
+    def flat_live(self) -> List[str]:
+        """every operation that gets a block, in block order (shapes flattened)"""
+        out = []
+        for n in self.added:
+            if n in self.recipes:
+                if n not in self.deleted:
+                    out.append(n)
+            else:
+                out += [f"{n}[{j}]" for j in range(self.shapes[n]["n_ops"]) if (n, j) not in self.deleted_sub]
+        return out
 
     def used_patch_names(self) -> List[str]:
-        return sorted({p["name"] for n in self.live_ops() for p in self.recipes[n]["patches"]})
+        names = {p["name"] for n in self.live_ops() for p in self.recipes[n]["patches"]}
+        for n in self.added:
+            if n in self.shapes:
+                names.update(self.shapes[n]["patch_names"])
+        return sorted(names)
 
     def _assemble(self) -> None:
         self.assembled = True
-        self.assembled_ops = self.live_ops()
+        self.assembled_ops = self.flat_live()
         self.assembled_merges = [list(m) for m in self.merges]
         self.stale_reasons = set()
 
@@ -148,12 +166,13 @@ class Model:
         """(op, corner) -> vertex key over the assembled operations"""
         slaves = {s for (_, s) in self.assembled_merges}
         allpos = []
-        for n in self.assembled_ops:
+        plain = [n for n in self.assembled_ops if n in self.recipes]  # shapes live elsewhere and are never moved
+        for n in plain:
             allpos += self.pos[n]
         ids = models.cluster_points(allpos, tol=1e-6) if allpos else []
         out = {}
         k = 0
-        for n in self.assembled_ops:
+        for n in plain:
             pats = {p["side"]: p["name"] for p in self.recipes[n]["patches"]}
             for c in range(8):
                 touching = {pats.get(s) for s in VC.SIDE_OF_CORNER[c]} - {None}
@@ -164,6 +183,9 @@ class Model:
     def fresh_program(self) -> Dict[str, Any]:
         ops: List[Dict[str, Any]] = []
         for n in self.added:
+            if n in self.shapes:
+                ops += [dict(x) for x in self.shapes[n]["ops"]]
+                continue
             r = self.recipes[n]
             ops.append({"op": "hex", "name": n, "corners": [list(p) for p in self.pos[n]], "edges": list(r["edges"])})
             ops += [dict(x) for x in r["chops"]]
@@ -174,6 +196,8 @@ class Model:
             ops.append({"op": "add", "target": n})
         for n in self.deleted:
             ops.append({"op": "delete", "target": n})
+        for (n, j) in self.deleted_sub:
+            ops.append({"op": "delete_sub", "target": n, "index": j})
         for m, s in self.merges:
             ops.append({"op": "merge", "master": m, "slave": s})
         if self.default:
@@ -187,9 +211,25 @@ class Model:
         """advance by one history step; returns the expectation attached to that step"""
         op = st["op"]
         ann: Dict[str, Any] = {}
-        if op == "hex":
+        if op == "shape":
+            self.shapes[st["name"]] = {"ops": [st], "n_ops": st["n_ops"], "patch_names": set()}
+        elif op in ("shape_chop", "shape_patch"):
+            self.shapes[st["target"]]["ops"].append(st)
+            if op == "shape_patch":
+                self.shapes[st["target"]]["patch_names"].add(st["name"])
+            if self.assembled and st["target"] in self.added:
+                self.stale_reasons.add("attr")
+        elif op == "delete_sub":
+            if st["target"] not in self.added or (st["target"], st["index"]) in self.deleted_sub or len(self.flat_live()) < 2:
+                raise IllFormed("delete_sub")
+            self.deleted_sub.append((st["target"], st["index"]))
+            if self.assembled:
+                self.stale_reasons.add("delete")
+        elif op == "hex":
             self.recipes[st["name"]] = {"edges": list(st.get("edges", [])), "chops": [], "patches": [], "patches_ops": [], "other": []}
             self.pos[st["name"]] = [list(p) for p in st["corners"]]
+        elif op == "zone" and st["target"] in self.shapes:
+            self.shapes[st["target"]]["ops"].append(st)
         elif op == "chop":
             self.recipes[st["target"]]["chops"].append(st)
             if self.assembled and st["target"] in self.added:
@@ -207,7 +247,7 @@ class Model:
         elif op == "geometry":
             self.geometry.append(st)
         elif op == "add":
-            if st["target"] in self.added or st["target"] not in self.recipes:
+            if st["target"] in self.added or (st["target"] not in self.recipes and st["target"] not in self.shapes):
                 raise IllFormed("add")
             self.added.append(st["target"])
             if self.assembled:
@@ -230,11 +270,11 @@ class Model:
             prev = self.patch_mods.get(st["name"], {})
             self.patch_mods[st["name"]] = {"kind": st["kind"], "settings": st["settings"] if st.get("settings") is not None else prev.get("settings")}
         elif op == "assemble":
-            if self.assembled or not self.live_ops():
+            if self.assembled or not self.flat_live():
                 raise IllFormed("assemble")
             self._assemble()
         elif op == "crash_in_assemble":
-            if self.assembled or not self.live_ops():
+            if self.assembled or not self.flat_live():
                 raise IllFormed("crash_in_assemble")
             # half-built volatile state; the history must clear next
             self.assembled = True
@@ -242,7 +282,7 @@ class Model:
         elif op == "clear":
             self._clear()
         elif op == "move_corner":
-            if not self.movable or st["target"] not in self.assembled_ops:
+            if not self.movable or st["target"] not in self.assembled_ops or st["target"] not in self.recipes:
                 raise IllFormed("move")
             part = self.partition()
             key = part[(st["target"], st["corner"])]
@@ -263,7 +303,7 @@ class Model:
             ann["deleted"] = list(self.deleted)
             ann["had_block"] = had_block
         elif op == "write":
-            if self.stale or self.pending or not self.live_ops():
+            if self.stale or self.pending or not self.flat_live():
                 raise IllFormed("write")
             if not self.assembled:
                 self._assemble()
@@ -292,6 +332,19 @@ def construction_ops(b: Dict[str, Any], points, skip_chop: Optional[int] = None)
     for pr in b["projects"]:
         ops.append({"op": "project_side", "target": name, "side": pr["side"], "label": pr["label"], "edges": pr["edges"], "points": pr["points"]})
     return ops
+
+
+_NOPS_CACHE: Dict[str, int] = {}
+
+
+def _count_operations(st: Dict[str, Any]) -> int:
+    """how many operations the shape consists of (asked from the library once per kind)"""
+    key = st["kind"] + str(st["args"].get("n", ""))
+    if key not in _NOPS_CACHE:
+        it = Interp({"ops": []})
+        it.step(0, {k: v for k, v in st.items() if k != "n_ops"})
+        _NOPS_CACHE[key] = len(it.env[st["name"]].operations)
+    return _NOPS_CACHE[key]
 
 
 def gen_history(seed: int, faults: str) -> Dict[str, Any]:
@@ -331,6 +384,27 @@ def gen_history(seed: int, faults: str) -> Dict[str, Any]:
             do(st)
     if uses_geometry:
         do({"op": "geometry", "name": "terrain", "props": ["type triSurfaceMesh", "name terrain", 'file "terrain.stl"']})
+    shape_name = None
+    if rs.chance(0.25):
+        # one multi-operation entity, far away from the lattice (never moved, may lose an operation)
+        shape_name = "s0"
+        kind = rs.pick(["cylinder", "ring", "hemisphere"])
+        o = [0.0, 40.0, 0.0]
+        if kind == "cylinder":
+            st = {"op": "shape", "name": "s0", "kind": "cylinder", "args": {"p1": o, "p2": [0, 40, 1.5], "r": [1.0, 40, 0]}}
+        elif kind == "ring":
+            st = {"op": "shape", "name": "s0", "kind": "ring", "args": {"p1": o, "p2": [0, 40, 1.0], "r_out": [1.0, 40, 0], "r_in": 0.5, "n": rs.pick([4, 8])}}
+        else:
+            st = {"op": "shape", "name": "s0", "kind": "hemisphere", "args": {"c": o, "r": [1.0, 40, 0], "n": [0, 0, 1]}}
+        st["n_ops"] = _count_operations(st)
+        do(st)
+        for w in ("axial", "radial", "tangential"):
+            do({"op": "shape_chop", "target": "s0", "which": w, "args": {"count": rs.randint(2, 4)}})
+        if rs.chance(0.6):
+            do({"op": "shape_patch", "target": "s0", "which": "outer", "name": rs.pick(NAMES)})
+        if rs.chance(0.4):
+            do({"op": "shape_patch", "target": "s0", "which": "start", "name": rs.pick(NAMES)})
+        names = names + ["s0"]
     order = rs.shuffled(names)
     first = rs.randint(1, len(names))
     if victim is not None and victim not in order[:first]:
@@ -348,6 +422,8 @@ def gen_history(seed: int, faults: str) -> Dict[str, Any]:
             cand.append(("add", 2))
         if len(m.live_ops()) > 1 and (victim is None or grade_fixed):
             cand.append(("delete", 2))
+        if shape_name in m.added and len(m.deleted_sub) < 2 and (victim is None or grade_fixed):
+            cand.append(("delete_sub", 0.7))
         if not m.assembled:
             cand.append(("assemble", 3))
             if p_fault:
@@ -369,13 +445,19 @@ def gen_history(seed: int, faults: str) -> Dict[str, Any]:
             do({"op": "add", "target": pool.pop(0)})
         elif kind == "delete":
             do({"op": "delete", "target": rs.pick(m.live_ops())})
+        elif kind == "delete_sub":
+            free = [j for j in range(m.shapes[shape_name]["n_ops"]) if (shape_name, j) not in m.deleted_sub]
+            do({"op": "delete_sub", "target": shape_name, "index": rs.pick(free)})
         elif kind == "assemble":
             do({"op": "assemble"})
         elif kind == "crash_in_assemble":
             do({"op": "crash_in_assemble", "at": rs.randint(1, 13 * len(m.live_ops()))})
             do({"op": "clear"})
         elif kind == "move":
-            n = rs.pick([x for x in m.assembled_ops if x not in m.deleted] or m.assembled_ops)
+            movable_ops = [x for x in m.assembled_ops if x in m.recipes]
+            if not movable_ops:
+                continue
+            n = rs.pick([x for x in movable_ops if x not in m.deleted] or movable_ops)
             c = rs.randrange(8)
             base_pos = m.pending.get((n, c)) or m.pos[n][c]
             to = [round(base_pos[k] + rs.uniform(-0.08, 0.08), 6) for k in range(3)]
@@ -400,7 +482,7 @@ def gen_history(seed: int, faults: str) -> Dict[str, Any]:
             st: Dict[str, Any] = {"op": "write", "path": DICT}
             if kind == "write_fail":
                 fk = rs.weighted([("open", 2), ("write", 5), ("close", 1)])
-                st["fault"] = {"kind": fk, "at": rs.randrange(9), "err": rs.pick([errno.ENOSPC, errno.EIO, errno.EACCES])}
+                st["fault"] = {"kind": fk, "at": rs.randrange(9), "err": rs.pick([errno.ENOSPC, errno.EIO, errno.EACCES, -1 if fk == "write" else errno.EIO])}
             do(st)
             if not grade_fixed:
                 # that write fails with a grading error: the user adds the chop, clears, writes
@@ -586,6 +668,9 @@ def run_history(hist: Dict[str, Any]) -> Dict[str, Any]:
                         outcome = "ok"
                     except OSError:
                         outcome = "oserror"
+                    except seams.SimCrash:
+                        outcome = "oserror"  # interrupted inside a write call: same recovery (write again)
+                        world.count("fault:crash-in-write")
                     except Exception as e:
                         outcome = "exc:" + type(e).__name__
                         msg = str(e)[:160]
@@ -726,11 +811,11 @@ def enumerate_faults(hist: Dict[str, Any]) -> Dict[str, Any]:
             break
     for i, st in enumerate(steps):
         if st["op"] == "write" and "fault" not in st:
-            for kind, ats in (("open", [0]), ("write", list(range(9))), ("close", [0])):
+            for kind, ats, err in (("open", [0], errno.ENOSPC), ("write", list(range(9)), errno.ENOSPC), ("write", list(range(9)), -1), ("close", [0], errno.ENOSPC)):
                 for at in ats:
                     v = copy.deepcopy(steps)
                     f = copy.deepcopy(st)
-                    f["fault"] = {"kind": kind, "at": at, "err": errno.ENOSPC}
+                    f["fault"] = {"kind": kind, "at": at, "err": err}
                     v[i: i + 1] = [f, copy.deepcopy(st)]
                     variants.append(("io-" + kind, at, v))
             break
